@@ -21,7 +21,7 @@ from vlib import core
 from vlib import replay as rp
 
 PROP = "C18"
-ALL_FINDINGS = ["F8a", "F8b", "F8c", "F8d", "F8e"]
+ALL_FINDINGS = ["F8a", "F8b", "F8c", "F8d", "F8e", "F8f"]
 LAWS = ["TypeOK", "LawRoundTrip", "LawApplyMissing", "LawNoEmptyBinding", "LawAmbiguityComplete", "LawWitness",
         "LawOverlapCharacterised", "LawResolveUnique", "LawBuildRejects"]
 GEN_LAWS = ["GenTypeOK", "SegmentsInBounds", "ErrorInBounds", "ParserAcceptsGrammar", "ParserReadsAsGrammar"]
@@ -48,7 +48,7 @@ def pct_decode(s):
     out = bytearray()
     i = 0
     while i < len(b):
-        if b[i] == 0x25 and i + 2 < len(b) + 0 and i + 2 <= len(b) - 1 + 0 and chr(b[i + 1]) in HEX and chr(b[i + 2]) in HEX:
+        if b[i] == 0x25 and i + 2 < len(b) and chr(b[i + 1]) in HEX and chr(b[i + 2]) in HEX:
             out.append(int(b[i + 1:i + 3].decode(), 16))
             i += 3
         else:
@@ -63,7 +63,7 @@ def uri_legal_text(s):
     while i < len(s):
         c = s[i]
         if c == "%":
-            if i + 2 < len(s) + 0 and i + 2 <= len(s) - 1 and s[i + 1] in HEX and s[i + 2] in HEX:
+            if i + 2 < len(s) and s[i + 1] in HEX and s[i + 2] in HEX:
                 i += 3
                 continue
             return False
@@ -71,6 +71,11 @@ def uri_legal_text(s):
             return False
         i += 1
     return True
+
+
+def route_legal(r):
+    """every character of a produced route may occur in a RouteUri (scheme / path)"""
+    return all(uri_legal_text(x) for x in r.split("/"))
 
 
 def scheme_legal(s):
@@ -91,7 +96,6 @@ def theme(a, ae, b, du, ul, dv, dw, wl, dt, x, y, xe, s, t, sr):
     # the relations the TLA+ data model assumes (SymDec, EncOf, UriLegalSym, NameDec, SchemeLegal)
     assert pct_decode(ae) == dc["a"] and a == url_encode(dc["a"]) and a != ae and "~" not in a
     assert pct_decode(sg["ue"]) == du and pct_decode(ul) == du and len({sg["ue"], ul, du}) == 3
-    assert pct_decode(du) == du or True
     assert uri_legal_text(a) and uri_legal_text(ae) and uri_legal_text(b) and uri_legal_text(sg["ue"]) and uri_legal_text(ul)
     assert not uri_legal_text(du) and "/" not in du and ":" not in du
     assert url_encode(dv) == dv and uri_legal_text(dv)
@@ -116,7 +120,7 @@ THEMES = [
     theme("meta.node", "meta%2Enode", "%61", "x?y#z", "x%3fy%23z", "Z9", "a+b&c=d", "a%2bb%26c%3dd", "-~-",
           "node_id", "lane", "node%5Fid", "swimos", "swimo", "s_"),
     theme("z", "%7A", "zz", "50%", "5%30%25", "v1", "%zz", "%25%7a%7A", "x~y",
-          "p q", "é", "p%20q", "w3", "w4", "é" if False else "a^"),
+          "p q", "é", "p%20q", "w3", "w4", "a^"),
     theme("q", "%71", "Q", "\U0001f600", "%f0%9f%98%80", "w", "\u0000\n", "%00%0a", "~0",
           "k", "kk", "%6b", "x", "y", "z z"),
 ]
@@ -281,8 +285,10 @@ def eval_pat(rec, ti, case, res, T):
                 exp_m = conc_bind(ar.get("rt"), th, by_decoded) if ar["ok"] else None
                 if "F8b" in shapes and o.get("rt") is not None and o.get("rt") == exp_m:
                     cand.append("F8b")
-                if "F8c" in shapes and o.get("rt") is None:
+                if "F8c" in shapes and (o.get("rt") is None or not route_legal(o["r"])):
                     cand.append("F8c")
+                if "F8f" in shapes and (o.get("rt") is None or not route_legal(o["r"])):
+                    cand.append("F8f")
                 if "F8d" in shapes and o.get("rt") is None and o["r"].endswith(":"):
                     cand.append("F8d")
                 if ar.get("f8e") and th["dec"]["t"] in o["r"]:
@@ -388,8 +394,9 @@ def eval_tab(rec, ti, case, res, T):
     T.law("ResolveUnique")
     if tab["accepted"] and clash:
         u, al = clash
-        f8a = all(amb[(al[x], al[y])][1]["f8a"] for x in range(len(al)) for y in range(x + 1, len(al))
-                  if not (amb[(al[x], al[y])][0]["lr"] and amb[(al[x], al[y])][0]["rl"]))
+        unrep = [amb[(al[x], al[y])] for x in range(len(al)) for y in range(x + 1, len(al))
+                 if not (amb[(al[x], al[y])][0]["lr"] and amb[(al[x], al[y])][0]["rl"])]
+        f8a = bool(unrep) and all(pr["f8a"] for (_, pr) in unrep)
         T.reject("ResolveUnique", "PlaneBuilder::build accepts %s although %r resolves to routes %s" % (ps, u, al),
                  ["F8a"] if f8a else [], ctx)
     # mechanism level
@@ -404,8 +411,10 @@ def rec_shapes(p):
     s = set()
     if not p["segs"]:
         s.add("F8d")
-    if p["sc"] == "sr" or any(g["t"] == "lit" and g["s"] == "ur" for g in p["segs"]):
+    if any(g["t"] == "lit" and g["s"] == "ur" for g in p["segs"]):
         s.add("F8c")
+    if p["sc"] == "sr":
+        s.add("F8f")
     if any(g["t"] == "par" and g["s"] == "xe" for g in p["segs"]):
         s.add("F8b")
     return s
@@ -439,8 +448,11 @@ def eval_str(rec, ti, case, res, T):
     def text(g):
         return "".join(chars[g["b"]:g["e"]])
     scheme = "".join(chars[:rec["sc"]]) if rec["sc"] >= 0 else None
-    lits = [text(g) for g in rec["segs"] if not g["par"]]
-    legal = all(uri_legal_text(x) for x in lits) and (scheme is None or scheme_legal(scheme))
+    # could this text occur in a RouteUri?  (decided on the concrete string and on the scheme the real parser reports,
+    # not on the model's reading, which is not to be trusted for a string the model rejects)
+    sch_legal = o.get("scheme") is None or scheme_legal(o["scheme"])
+    body = s[len(o["scheme"]) + 1:] if o.get("scheme") is not None else s
+    legal = route_legal(body)
     if o.get("ok"):
         # whatever the parser accepts is a pattern: the round trip law applies to it
         T.law("RoundTrip")
@@ -449,15 +461,17 @@ def eval_str(rec, ti, case, res, T):
             T.reject("RoundTrip", "pattern %r: apply fails (%s) on the complete map %s" % (s, a.get("missing"), json.dumps(m_used)), [], ctx)
         elif a.get("rt") != m_used or a.get("rt_uri") != m_used:
             cand = []
-            if not legal and a.get("rt") is None:
+            if not legal and (a.get("rt") is None or not route_legal(a["r"])):
                 cand.append("F8c")
+            if not sch_legal and (a.get("rt") is None or not route_legal(a["r"])):
+                cand.append("F8f")
             if rec["ok"] and not rec["segs"] and a.get("rt") is None and a["r"].endswith(":"):
                 cand.append("F8d")
             if any(pct_decode(n) != n for n in o.get("params", [])) and a.get("rt") is not None:
                 cand.append("F8b")
             T.reject("RoundTrip", "pattern %r: apply(%s) = %r but unapply_str of that = %s" % (
                 s, json.dumps(m_used, ensure_ascii=False), a["r"], json.dumps(a.get("rt"), ensure_ascii=False)), cand, ctx)
-    elif rec["ok"] and rec["g"] and legal:
+    elif rec["ok"] and rec["g"] and legal and (scheme is None or scheme_legal(scheme)):
         T.reject("PatternsParse", "well-formed pattern %r rejected by RoutePattern::parse_str (offset %s)" % (s, o.get("off")), [], ctx)
         return
     # mechanism level: same verdict, same reading, same error offset (bytes)
@@ -514,9 +528,9 @@ def plan(tier):
 def counterexample_runs():
     """one small run per finding WITHOUT its excuse: TLC must find the law it breaks on the mechanism"""
     runs = []
-    for f in ["F8a", "F8b", "F8c", "F8d", "F8e"]:
+    for f in ALL_FINDINGS:
         rest = [x for x in ALL_FINDINGS if x != f]
-        runs.append((f, "Route", route_cfg(["a", "ae", "ur"], ["x", "xe"], ["", "s"], [True], 2, 2, findings=rest, dump=False)))
+        runs.append((f, "Route", route_cfg(["a", "ae", "ur"], ["x", "xe"], ["", "s", "sr"], [True, False], 2, 2, findings=rest, dump=False)))
     runs.append(("F8d-parser", "Gen_Route", gen_cfg(3, findings=[], dump=False)))
     return runs
 
